@@ -1,8 +1,145 @@
-(* C01 - Row byte format is lossless and self-delimiting (property theorems; being built) *)
+(* C01 - Row byte format is lossless and self-delimiting.
+   Property theorems only; each is closed by [exact] of a lemma from Proofs/C01*.v and followed by
+   Print Assumptions.  [encode_row] models Row.as_bytes, [decode_row] models from_bytes_cython,
+   [pack]/[unpack] model ormsgpack.packb/unpackb (Model/C01.v); the header constants and ormsgpack's
+   nesting limits come from Gen/C01_RowFmt.v, regenerated on every run. *)
 From Coq Require Import List NArith ZArith Bool.
 From Orso Require Import Gen.C01_RowFmt Model.C01 Proofs.C01.
 Import ListNotations.
+Open Scope N_scope.
 
-Theorem C01_every_emitted_depth_is_decodable : (enc_limit <= dec_limit)%N.
+(* The reader inverts the writer on every well-formed value (64-bit integers, 64-bit float patterns - NaN
+   payloads, infinities and -0.0 are just patterns -, well-formed UTF-8 text and keys, every length < 2^32),
+   whatever follows it in the input: the encoding is self-delimiting.  [fuel] bounds the nesting the reader accepts. *)
+Theorem C01_unpack_pack :
+  forall v : mval, wf v ->
+  forall (fuel : nat) (rest : bytes), (vdepth v <= fuel)%nat ->
+  unpack fuel (pack v ++ rest) = Some (v, rest).
+Proof. exact unpack_pack. Qed.
+Print Assumptions C01_unpack_pack.
+
+(* Whatever the encoder can emit, the decoder can open: the deepest nesting packb accepts (measured) is
+   within what unpackb accepts (measured). *)
+Theorem C01_every_emitted_depth_is_decodable : enc_limit <= dec_limit.
 Proof. exact enc_limit_le_dec_limit. Qed.
 Print Assumptions C01_every_emitted_depth_is_decodable.
+
+(* Every record the encoder emits passes the decoder's three header checks and unpacks to exactly the row
+   that was packed; only the ['__datetime__', x] rewrite of from_bytes_cython remains to be applied. *)
+Theorem C01_emitted_accepted :
+  forall (ts : N) (row : list mval) (r : bytes),
+  encode_row ts row = Ok r -> decode_row r = post row.
+Proof. exact decode_encode. Qed.
+Print Assumptions C01_emitted_accepted.
+
+(* Lossless: decoding an emitted record returns the row, value for value and in order (floats compared as
+   64-bit patterns, so NaN / +-inf / -0.0 are covered; int64/uint64 extremes are in the domain), provided no
+   top-level element has the reserved form ['__datetime__', x]. *)
+Theorem C01_roundtrip :
+  forall (ts : N) (row : list mval) (r : bytes),
+  encode_row ts row = Ok r -> no_datetime row = true ->
+  decode_row r = Ok (map CVal row).
+Proof. exact roundtrip. Qed.
+Print Assumptions C01_roundtrip.
+
+(* ... and the encoder does emit a record for every well-formed row within the serialiser's nesting limit
+   and the 16 MiB cap (the statement of DESIGN.md, with its hypotheses spelled out). *)
+Theorem C01_roundtrip_explicit :
+  forall (ts : N) (row : list mval),
+  wf (MArr row) -> cdepth (MArr row) <= enc_container_limit -> no_datetime row = true ->
+  (Z.of_N (len (pack (MArr row))) <= row_MAXIMUM_RECORD_SIZE)%Z ->
+  exists r, encode_row ts row = Ok r /\ decode_row r = Ok (map CVal row).
+Proof. exact roundtrip_explicit. Qed.
+Print Assumptions C01_roundtrip_explicit.
+
+(* Above the cap nothing is emitted: DataError. *)
+Theorem C01_oversize_refused :
+  forall (ts : N) (row : list mval),
+  wf (MArr row) -> cdepth (MArr row) <= enc_container_limit ->
+  (row_MAXIMUM_RECORD_SIZE < Z.of_N (len (pack (MArr row))))%Z ->
+  encode_row ts row = Raise DataError.
+Proof. exact encode_oversize. Qed.
+Print Assumptions C01_oversize_refused.
+
+(* A write torn at any byte: every strict prefix of an emitted record is rejected with DataError. *)
+Theorem C01_torn :
+  forall (ts : N) (row : list mval) (r : bytes) (k : nat),
+  encode_row ts row = Ok r -> (k < length r)%nat ->
+  decode_row (firstn k r) = Raise DataError.
+Proof. exact torn_rejected. Qed.
+Print Assumptions C01_torn.
+
+(* Every extension of an emitted record by a non-empty suffix is rejected with DataError. *)
+Theorem C01_extended :
+  forall (ts : N) (row : list mval) (r s : bytes),
+  encode_row ts row = Ok r -> s <> [] ->
+  decode_row (r ++ s) = Raise DataError.
+Proof. exact extended_rejected. Qed.
+Print Assumptions C01_extended.
+
+(* The first byte replaced by any byte whose high nibble is not the version (1): DataError.
+   (The encoder writes 0x10: [version_written].) *)
+Theorem C01_version_altered :
+  forall (ts : N) (row : list mval) (b0 : N) (tl : bytes) (b0' : N),
+  encode_row ts row = Ok (b0 :: tl) ->
+  b0' < 256 -> b0' / 16 <> 1 ->
+  decode_row (b0' :: tl) = Raise DataError.
+Proof. exact version_altered_rejected. Qed.
+Print Assumptions C01_version_altered.
+
+(* The four length bytes replaced by any four bytes that differ from them (i.e. encode a different
+   value): DataError - including values whose top bit makes the C expression negative. *)
+Theorem C01_length_altered :
+  forall (ts : N) (row : list mval) (p0 p1 l2 l3 l4 l5 : N) (tl : bytes) (c2 c3 c4 c5 : N),
+  encode_row ts row = Ok (p0 :: p1 :: l2 :: l3 :: l4 :: l5 :: tl) ->
+  c2 < 256 -> c3 < 256 -> c4 < 256 -> c5 < 256 ->
+  [c2; c3; c4; c5] <> [l2; l3; l4; l5] ->
+  decode_row (p0 :: p1 :: c2 :: c3 :: c4 :: c5 :: tl) = Raise DataError.
+Proof. exact length_altered_rejected. Qed.
+Print Assumptions C01_length_altered.
+
+(* The property's own quantifier: every single-bit change of the version nibble (byte 0, bits 4..7) and of
+   the four length bytes (bytes 2..5, bits 0..7) of an emitted record is rejected with DataError. *)
+Theorem C01_single_bit_flips :
+  forall (ts : N) (row : list mval) (r : bytes) (i b : N),
+  encode_row ts row = Ok r ->
+  (i = 0 /\ 4 <= b < 8) \/ (2 <= i <= 5 /\ b < 8) ->
+  decode_row (flip_at r i b) = Raise DataError.
+Proof. exact single_bit_flips. Qed.
+Print Assumptions C01_single_bit_flips.
+
+(* ---- non-vacuity: a row with every value kind, containers nested three levels below the row ---- *)
+Definition nv_row : list mval :=
+  [ MNil; MBool true; MBool false;
+    MInt (-9223372036854775808); MInt 18446744073709551615; MInt (-33); MInt 128;
+    MFloat 9221120237041090561 (* a NaN with payload *); MFloat 9223372036854775808 (* -0.0 *);
+    MFloat 18442240474082181120 (* -inf *);
+    MStr [104; 195; 169; 240; 159; 152; 128] (* "h", e-acute, U+1F600 *); MBin [0; 255; 193];
+    MArr [MInt 1; MMap [([107], MArr [MNil; MFloat 9218868437227405312; MStr []; MMap []]); ([], MBin [])]; MArr []];
+    MMap [([97], MArr [MArr [MBool true; MInt 65536]]);
+          ([95; 95; 100; 97; 116; 101; 116; 105; 109; 101; 95; 95], MInt 1)] ].
+
+Example C01_nonvacuous :
+  wf (MArr nv_row) /\ cdepth (MArr nv_row) = 5 /\ no_datetime nv_row = true /\
+  match encode_row 1700000000123456789 nv_row with
+  | Ok r => length r = 127%nat /\ decode_row r = Ok (map CVal nv_row)
+  | Raise _ => False
+  end.
+Proof. vm_compute. repeat split. Qed.
+
+(* the 32 + 4 single-bit changes (and every tear point, and two extensions) swept by computation on that record *)
+Example C01_nonvacuous_sweep :
+  match encode_row 1700000000123456789 nv_row with
+  | Ok r =>
+      forallb (fun ib => is_data_error (decode_row (flip_at r (fst ib) (snd ib))))
+              ([(0, 4); (0, 5); (0, 6); (0, 7)] ++
+               flat_map (fun i => map (fun b => (i, N.of_nat b)) (seq 0 8)) [2; 3; 4; 5]) = true /\
+      forallb (fun k => is_data_error (decode_row (firstn k r))) (seq 0 (length r)) = true /\
+      is_data_error (decode_row (r ++ [0])) = true /\ is_data_error (decode_row (r ++ r)) = true
+  | Raise _ => False
+  end.
+Proof. vm_compute. repeat split. Qed.
+
+(* the hypotheses of C01_oversize_refused / the Raise branches are reachable too: an integer outside 64 bits *)
+Example C01_unencodable : encode_row 0 [MInt 18446744073709551616] = Raise TypeError.
+Proof. reflexivity. Qed.
